@@ -89,4 +89,123 @@ def replJudge (src sinkDir : Str) (incr filtered : Bool) (key : Str) (old new : 
        | _, _, _ => some "Replicate/wrong-calls")
     else some "Replicate/wrong-target-key"
 
+/-! ## localsink tree comparison: the sink directory must be the MIRROR of the watched subtree
+
+The same events are applied to an abstract source tree (what the source filer holds: files and
+directories as component paths).  After every event the files that are component-wise inside the
+source directory, mapped by `mappedComps … ` (relative to the sink directory), are the expected
+content of the sink directory.  Only file sets are compared (LocalSink never materialises empty
+directories); non-incremental sinks only. -/
+
+structure SrcTree where
+  files : List Path
+  dirs : List Path
+deriving Repr, DecidableEq
+
+def SrcTree.empty : SrcTree := ⟨[], []⟩
+
+def evOldP (e : LEv) : Option Str := e.old.map fun o => child e.dir o.2
+def evNewP (e : LEv) : Option Str := e.new.map fun n => child e.newParent n.2
+def evPaths (e : LEv) : List Str := (evOldP e).toList ++ (evNewP e).toList
+
+/-- `p` can be created: nothing there, no file on the way -/
+def freeAt (s : SrcTree) (p : Path) : Bool :=
+  p != [] && !s.files.contains p && !s.dirs.contains p && (ancestors p).all (fun a => !s.files.contains a)
+
+def addAncestors (ds : List Path) (p : Path) : List Path :=
+  (ancestors p).foldl (fun ds a => if ds.contains a then ds else ds ++ [a]) ds
+
+/-- the event applied to the source tree; `none` = the source filer could not have emitted it in this
+    state (such sequences are not judged).  Deleting / renaming a directory takes its content along. -/
+def srcApply (s : SrcTree) (e : LEv) : Option SrcTree :=
+  match e.old, e.new with
+  | none, none => some s
+  | none, some n =>
+    let p := comps (child e.newParent n.2)
+    if !freeAt s p then none else
+    some (if n.1 then ⟨s.files, addAncestors s.dirs p ++ [p]⟩ else ⟨s.files ++ [p], addAncestors s.dirs p⟩)
+  | some o, none =>
+    let p := comps (child e.dir o.2)
+    if !(if o.1 then s.dirs.contains p else s.files.contains p) then none else
+    some ⟨s.files.filter (fun x => !p.isPrefixOf x), s.dirs.filter (fun x => !p.isPrefixOf x)⟩
+  | some o, some n =>
+    let p := comps (child e.dir o.2)
+    let q := comps (child e.newParent n.2)
+    if o.1 != n.1 || !(if o.1 then s.dirs.contains p else s.files.contains p) then none else
+    if p == q then some s else
+    if p.isPrefixOf q || !freeAt s q then none else
+    let mv : Path → Path := fun x => if p.isPrefixOf x then q ++ x.drop p.length else x
+    some ⟨s.files.map mv, addAncestors (s.dirs.map mv) q⟩
+
+/-- mapped key of a source path relative to the sink directory (= `mappedComps src [] false p` when
+    `f = comps p`, see `mirrorKey_eq_mappedComps`) -/
+def mirrorKey (src : Str) (f : Path) : Path := f.drop (comps src).length
+
+/-- the expected file listing of the sink directory -/
+def mirror (src : Str) (s : SrcTree) : List Str :=
+  sortStr ((s.files.filter fun f => (comps src).isPrefixOf f && f != comps src).map fun f => relTok (mirrorKey src f))
+
+/-- the string tests of the process function agree with the component-wise reading on every path of
+    the event, and it is not a rename from outside into the directory: the complement is covered by the
+    recorded genProcessFunction findings -/
+def evClear (src : Str) (e : LEv) : Bool :=
+  (e.dir :: evPaths e).all (fun x => hasPrefix x src == inside src x) &&
+  !(e.old.isSome && e.new.isSome && !((evOldP e).map (inside src)).getD false && ((evNewP e).map (inside src)).getD false)
+
+def unclearClass (src : Str) (e : LEv) : String :=
+  let oIn := ((evOldP e).map (inside src)).getD false
+  let nIn := ((evNewP e).map (inside src)).getD false
+  if !oIn && !nIn then "genProcessFunction/replicates-sibling-of-source-dir"
+  else if e.old.isSome && e.new.isSome && !oIn && nIn then "genProcessFunction/ignores-rename-into-source-dir"
+  else if (e.old.isSome && !oIn) || (e.new.isSome && !nIn) then "genProcessFunction/treats-sibling-as-inside-on-rename"
+  else if src.getLast? = some '/' && src != ['/'] then "genProcessFunction/trailing-slash-source-ignores-top-level"
+  else "LocalSink/tree-differs-from-mirror"
+
+def isDirRename (e : LEv) : Bool :=
+  match e.old, e.new with
+  | some o, some n => (o.1 || n.1) && comps (child e.dir o.2) != comps (child e.newParent n.2)
+  | _, _ => false
+
+/-- what the harness saw after one event -/
+structure ImplStep where
+  files : List Str          -- sorted relative file paths
+  status : String           -- ok | err | panic
+deriving Repr
+
+def lsClassify (src : Str) (e : LEv) (i : ImplStep) : String :=
+  if !evClear src e then unclearClass src e else
+  match e.old, e.new with
+  | some o, some n =>
+    let ko := relTok (mirrorKey src (comps (child e.dir o.2)))
+    let kn := relTok (mirrorKey src (comps (child e.newParent n.2)))
+    if ko != kn && i.files.contains ko && !i.files.contains kn then "LocalSink.UpdateEntry/rename-keeps-old-path"
+    else "LocalSink/tree-differs-from-mirror"
+  | some o, none =>
+    let k := relTok (mirrorKey src (comps (child e.dir o.2))) ++ ['/']
+    if o.1 && i.files.any (fun f => k.isPrefixOf f) then "LocalSink.DeleteEntry/non-empty-directory-kept"
+    else "LocalSink/tree-differs-from-mirror"
+  | _, _ => "LocalSink/tree-differs-from-mirror"
+
+/-- judge of one sequence: the first event after which the sink directory is not the mirror of the
+    source tree, classified by that event; the second component counts the events judged fine.
+    Judging stops (without complaint) at an event about the source directory's own entry, about a
+    multipart-upload part (deliberately skipped by LocalSink), at a directory rename (whether the
+    source announces the children separately is not fixed by the property) and at an event the
+    source filer could not have emitted. -/
+def lsyncJudgeAux (src : Str) : SrcTree → List LEv → List ImplStep → Nat → Option String × Nat
+  | _, [], _, k => (none, k)
+  | _, _ :: _, [], k => (none, k)
+  | s, e :: es, i :: is, k =>
+    if (evPaths e).any (fun p => atRoot src p || isMultiPart p) then (none, k) else
+    if isDirRename e then (none, k) else
+    match srcApply s e with
+    | none => (none, k)
+    | some s' =>
+      if i.status == "panic" then (some "genProcessFunction/panics", k) else
+      if i.status == "ok" && i.files == mirror src s' then lsyncJudgeAux src s' es is (k + 1)
+      else (some (lsClassify src e i), k)
+
+def lsyncJudge (src : Str) (incr : Bool) (evs : List LEv) (impl : List ImplStep) : Option String × Nat :=
+  if incr then (none, 0) else lsyncJudgeAux src SrcTree.empty evs impl 0
+
 end SwV.Spec.C36
